@@ -473,7 +473,7 @@ func runSeq(c *mc.Ctx, r *mc.Result, poolName string) {
 				if !c.Mine(idx) {
 					continue
 				}
-				if idx&511 == 0 && c.Expired() {
+				if c.ExpiredEvery(512) {
 					stopped = true
 					r.NotExhaustive = append(r.NotExhaustive, "sequential: time guard")
 					return
